@@ -1,5 +1,5 @@
 (* Readable corollaries of the master refinement, one per property conjunct. *)
-From Chum Require Export SemLaws Modes.
+From Chum Require Export SemLaws Modes Mono.
 
 Section Corollaries.
 Variable K : ekind.
@@ -24,6 +24,36 @@ Lemma machine_err_is_peg n m g ctx s s' :
 Proof.
   intros H Hi. pose proof (refine K toks spn n m g ctx s _ _ H Hi) as P. cbn in P.
   destruct P as (ext & Hs & _). eauto.
+Qed.
+
+(* Fuel is not a semantic parameter: two runs of the machine from the same state that both give an answer (whatever
+   their fuels) give the same answer: verdict, value, cursor, pending error, reported errors, inspector state *)
+Lemma machine_fuel_independent_ok n n' m g ctx s v s1 r' s2 :
+  inv s -> go n m g ctx s = (Ok v, s1) -> go n' m g ctx s = (r', s2) -> (r' = Err \/ exists v2, r' = Ok v2) ->
+  r' = Ok v /\ cur s2 = cur s1 /\ alt s2 = alt s1 /\ sec s2 = sec s1 /\ ust s2 = ust s1.
+Proof.
+  intros Hi H H' Hr.
+  pose proof (refine K toks spn n m g ctx s _ _ H Hi) as P. cbn in P.
+  destruct P as (v' & p' & ems & Hs & Hv & Hc & Hsec & Hu).
+  pose proof (refine K toks spn n' m g ctx s _ _ H' Hi) as P'.
+  destruct Hr as [->|[v2 ->]]; cbn in P'.
+  - destruct P' as (ext & Hs' & _). pose proof (sem_deterministic K toks spn _ _ _ _ _ _ _ _ Hs Hs'). discriminate.
+  - destruct P' as (v2' & p2 & ems2 & Hs' & Hv' & Hc' & Hsec' & Hu').
+    pose proof (sem_deterministic K toks spn _ _ _ _ _ _ _ _ Hs Hs') as E. injection E as -> -> -> Ea.
+    subst. repeat split; congruence.
+Qed.
+
+Lemma machine_fuel_independent_err n n' m g ctx s s1 r' s2 :
+  inv s -> go n m g ctx s = (Err, s1) -> go n' m g ctx s = (r', s2) -> (r' = Err \/ exists v2, r' = Ok v2) ->
+  r' = Err /\ alt s2 = alt s1.
+Proof.
+  intros Hi H H' Hr.
+  pose proof (refine K toks spn n m g ctx s _ _ H Hi) as P. cbn in P. destruct P as (ext & Hs & _).
+  pose proof (refine K toks spn n' m g ctx s _ _ H' Hi) as P'.
+  destruct Hr as [->|[v2 ->]]; cbn in P'.
+  - destruct P' as (ext' & Hs' & _). pose proof (sem_deterministic K toks spn _ _ _ _ _ _ _ _ Hs Hs') as E.
+    injection E as E. auto.
+  - destruct P' as (v2' & p2 & ems2 & Hs' & _). pose proof (sem_deterministic K toks spn _ _ _ _ _ _ _ _ Hs Hs'). discriminate.
 Qed.
 
 (* C05: on success the reported non-fatal errors grow by exactly the emissions of the successful path *)
